@@ -257,6 +257,10 @@ func checkC14Body(c c14Case, compact string) error {
 			}
 		}
 	}
+	// (5) one byte buffer reused for documents of the same length (a read buffer, a patched template)
+	if err := checkC14BufferReuse(c, compact); err != nil {
+		return err
+	}
 	// (4) invalid input: one error, nothing written, ordinal consumed
 	root := scratchDir()
 	defer os.RemoveAll(root)
@@ -296,6 +300,149 @@ func checkC14Body(c c14Case, compact string) error {
 	return nil
 }
 
+// sameLengthVariants derives documents of exactly the same byte length with another value: a digit 1-9 becomes
+// another digit 1-9, an unescaped ASCII letter inside a string becomes another letter, a literal true becomes null.
+func sameLengthVariants(doc string, max int) []string {
+	var pos []int
+	inStr := false
+	for i := 0; i < len(doc); i++ {
+		ch := doc[i]
+		if inStr {
+			switch {
+			case ch == '\\':
+				if i+1 < len(doc) && doc[i+1] == 'u' {
+					i += 5
+				} else {
+					i++
+				}
+			case ch == '"':
+				inStr = false
+			case ch >= 'a' && ch <= 'z', ch >= '1' && ch <= '9':
+				pos = append(pos, i)
+			}
+			continue
+		}
+		switch {
+		case ch == '"':
+			inStr = true
+		case ch >= '1' && ch <= '9':
+			pos = append(pos, i)
+		case strings.HasPrefix(doc[i:], "true"):
+			pos = append(pos, -i-1)
+			i += 3
+		}
+	}
+	var out []string
+	for k := 0; k < len(pos) && len(out) < max; k++ {
+		// spread over the document: first, last, middle, ...
+		p := pos[(k*7)%len(pos)]
+		b := []byte(doc)
+		switch {
+		case p < 0:
+			copy(b[-p-1:], "null")
+		case b[p] >= '1' && b[p] <= '9':
+			b[p] = '1' + (b[p]-'1'+4)%9
+		default:
+			b[p] = 'a' + (b[p]-'a'+7)%26
+		}
+		if v := string(b); v != doc && json.Valid(b) {
+			out = append(out, v)
+		}
+	}
+	return out
+}
+
+// checkC14BufferReuse: the caller keeps ONE []byte and overwrites it in place with documents of the same length
+// between assertions. Every assertion must store what a fresh process stores for that document.
+func checkC14BufferReuse(c c14Case, compact string) error {
+	variants := sameLengthVariants(compact, 3)
+	if len(variants) == 0 {
+		return nil
+	}
+	docs := append([]string{compact}, variants...)
+	docs = append(docs, compact) // and back to the first document
+	want := make([]string, len(docs))
+	for i, d := range docs {
+		w, err := storeJSON(c.API, c.Opt, c.Test, d, "string")
+		if err != nil {
+			return err
+		}
+		want[i] = w
+	}
+	root := scratchDir()
+	defer os.RemoveAll(root)
+	newProcess(Mode{})
+	spec := CfgSpec{Dir: "snaps", Filename: "f", JSON: c.Opt}
+	if c.API == "sjson" {
+		spec.Filename = ""
+	}
+	cfg := spec.build(root)
+	ft := newFakeT(c.Test)
+	buf := make([]byte, len(compact))
+	for i, d := range docs {
+		copy(buf, d)
+		if c.API == "sjson" {
+			cfg.MatchStandaloneJSON(ft, buf)
+		} else {
+			cfg.MatchJSON(ft, buf)
+		}
+		if string(buf) != d {
+			return fmt.Errorf("the call modified the caller's buffer: %q -> %q", clip(d), clip(string(buf)))
+		}
+		// the same document as a string right after it
+		if i%2 == 1 {
+			if c.API == "sjson" {
+				cfg.MatchStandaloneJSON(ft, d)
+			} else {
+				cfg.MatchJSON(ft, d)
+			}
+		}
+	}
+	ft.finish()
+	if e, _ := ft.drain(); len(e) != 0 {
+		return fmt.Errorf("buffer reuse: calls failed: %q", clipAll(e))
+	}
+	var got []string
+	if c.API == "sjson" {
+		for n := 1; ; n++ {
+			p := filepath.Join(root, spec.standalonePath(c.Test, n, true))
+			if _, err := os.Stat(p); err != nil {
+				break
+			}
+			got = append(got, readFile(p))
+		}
+	} else {
+		es, err := refParse(readFile(filepath.Join(root, spec.multiPath())))
+		if err != nil {
+			return fmt.Errorf("buffer reuse: %v", err)
+		}
+		for n := 1; ; n++ {
+			i := findEntry(es, entryID(c.Test, n))
+			if i < 0 {
+				break
+			}
+			got = append(got, string(es[i].Body))
+		}
+	}
+	k := 0
+	for i, d := range docs {
+		reps := 1
+		if i%2 == 1 {
+			reps = 2
+		}
+		for r := 0; r < reps; r++ {
+			if k >= len(got) {
+				return fmt.Errorf("buffer reuse: %d snapshots stored, more expected", len(got))
+			}
+			if got[k] != want[i] {
+				return fmt.Errorf("assertion %d passes %q (the caller's buffer rewritten in place, same length as the previous document %q) but the stored text is %q; a fresh process stores %q", k+1, clip(d), clip(docs[max(i-1, 0)]), clip(got[k]), clip(want[i]))
+			}
+			k++
+		}
+	}
+	return nil
+}
+
 func classifyC14(c c14Case) ([]string, bool) {
 	var cls []string
 	nt := true // every case carries an invalid input
@@ -320,6 +467,9 @@ func classifyC14(c c14Case) ([]string, bool) {
 		cls = append(cls, "custom_options_unsorted")
 	}
 	cls = append(cls, "api_"+c.API)
+	if len(sameLengthVariants(txt, 1)) > 0 {
+		cls = append(cls, "buffer_reused_for_same_length_documents")
+	}
 	return cls, nt
 }
 
